@@ -391,6 +391,20 @@ class Check(PropertyCheck):
     parallel = False
     case_timeout = 20
 
+    def translate(self):
+        """(T) constants of next_layer.py / tls.py the model uses, regenerated from the live code on every run"""
+        vers = sorted(next_layer.KNOWN_QUIC_VERSIONS); ports = sorted(next_layer.TYPICAL_QUIC_PORTS)
+        alpns = [list(a) for a in tls_layers.HTTP_ALPNS]
+        body = ("-- GENERATED by harness/c19.py translate() from mitmproxy/addons/next_layer.py (KNOWN_QUIC_VERSIONS, TYPICAL_QUIC_PORTS)\n"
+                "-- and mitmproxy/proxy/layers/tls.py (HTTP_ALPNS). Do not edit.\n"
+                "namespace MitmVerif.Gen.C19\n\n"
+                f"def knownQuicVersions : List Nat := {vers}\n"
+                f"def typicalQuicPorts : List Nat := {ports}\n"
+                "/-- HTTP_ALPNS as byte strings -/\n"
+                f"def httpAlpns : List (List UInt8) := {alpns}\n\n"
+                "end MitmVerif.Gen.C19\n")
+        return {"MitmVerif/Gen/C19.lean": body}
+
     def setup(self, tier):
         self.parallel = tier == "thorough"
         self._stash = {}
@@ -1137,14 +1151,14 @@ class Check(PropertyCheck):
 
     def cfg_fields(self, cfg, dc):
         if outside_model(dec(dc)) and cfg["tcp"]: raise Skip()
-        valid = valid_names(dc, bool(cfg["tcp"]))
+        valid = []       # check.is_valid_host is no longer a parameter of the tie: the driver runs C13's transcription Np.validHostFull
         alpn = cfg.get("alpn")
         return [str(cfg["tcp"]), self.pats_field(cfg["ignore"]), self.pats_field(cfg["allow"]), str(cfg.get("wg", 0)),
                 self.addr_field(cfg.get("peer")), self.addr_field(cfg.get("addr")),
                 "none" if cfg.get("csni") is None else hx(cfg["csni"].encode()),
                 ",".join(hx(v) for v in valid) if valid else ".", quic_param(dc, cfg), cfg.get("top", "other"),
                 str(cfg.get("show", 0)), str(cfg.get("rawtcp", 1)), self.pats_field(cfg.get("tcp_hosts", [])),
-                self.pats_field(cfg.get("udp_hosts", [])), str(int(bool(alpn))), str(int(bool(alpn) and alpn.encode() in tls_layers.HTTP_ALPNS)),
+                self.pats_field(cfg.get("udp_hosts", [])), ("none" if not alpn else hx(alpn.encode())), "-",
                 str(int(cfg.get("tlsver") == "QUICv1"))]
 
     def model_lines(self, case):
